@@ -17,6 +17,7 @@ polls of a parked consumer included.
 import ScyllaVerif.Proofs.MergeChannel
 import ScyllaVerif.Model.MetaUpdate
 import ScyllaVerif.Model.RefreshFlow
+import ScyllaVerif.Model.ClusterConsumer
 
 namespace ScyllaVerif.Props.C19
 open ScyllaVerif.MergeChannel
@@ -767,44 +768,64 @@ private theorem refreshIds_none : refreshIds none = [] := rfl
 private structure FlowInv (s : Flow) : Prop where
   once : ∀ id, places s id = if id < s.next then 1 else 0
   idle : s.busy = false → s.applying = []
+  nofetch : s.fetching = false → s.pending = none
 
 private theorem count_single (a id : Nat) : List.count id [a] = if a = id then 1 else 0 := by
   by_cases h : a = id <;> simp [h]
 
+private theorem flowInv_stopProducer (s : Flow) (h : FlowInv s) : FlowInv (stopProducer s) := by
+  obtain ⟨once, idle, nofetch⟩ := h
+  unfold stopProducer
+  simp only []
+  split
+  · refine ⟨fun id => ?_, by simpa using idle, by simp⟩
+    have := once id
+    simp only [places, List.count_append, Option.toList_none, List.count_nil, refreshIds_none] at this ⊢
+    omega
+  · refine ⟨fun id => ?_, by simpa using idle, by simp⟩
+    have := once id
+    simp only [places, List.count_append, Option.toList_none, List.count_nil] at this ⊢
+    omega
+
 private theorem flowInv_step (s : Flow) (e : Ev) (h : FlowInv s) : FlowInv (RefreshFlow.step s e) := by
-  obtain ⟨once, idle⟩ := h
+  have h0 := h
+  obtain ⟨once, idle, nofetch⟩ := h
   cases e with
   | request =>
-    refine ⟨fun id => ?_, by simpa [RefreshFlow.step] using idle⟩
-    have := once id
-    simp only [places, RefreshFlow.step, List.count_append, count_single] at this ⊢
-    by_cases h1 : s.next = id
-    · subst h1; simp at this ⊢; omega
-    · have h3 : id < s.next + 1 ↔ id < s.next := by omega
-      simp only [h3, h1, if_false] at this ⊢
-      omega
+    simp only [RefreshFlow.step]
+    split
+    all_goals
+      refine ⟨fun id => ?_, by simpa using idle, by simpa using nofetch⟩
+      have := once id
+      simp only [places, List.count_append, count_single] at this ⊢
+      by_cases h1 : s.next = id
+      · subst h1; simp at this ⊢; omega
+      · have h3 : id < s.next + 1 ↔ id < s.next := by omega
+        simp only [h3, h1, if_false] at this ⊢
+        omega
   | recvRequest =>
     simp only [RefreshFlow.step]
     split
-    · exact ⟨once, idle⟩
+    · exact h0
     · split
-      · rename_i r rest hp hw
-        refine ⟨fun id => ?_, by simpa using idle⟩
+      · rename_i r rest hw
+        refine ⟨fun id => ?_, by simpa using idle, by simp⟩
         have := once id
-        simp only [places, hp, hw, Option.toList_none, Option.toList_some, List.count_cons, List.count_nil] at this ⊢
+        simp only [places, hw, List.count_append, Option.toList_some, List.count_cons, List.count_nil] at this ⊢
         omega
-      · exact ⟨once, idle⟩
+      · exact h0
+  | periodicFetch =>
+    simp only [RefreshFlow.step]
+    split
+    · exact h0
+    · exact ⟨once, idle, by simp⟩
   | fetchOk m =>
     simp only [RefreshFlow.step]
     split
-    · exact ⟨once, idle⟩
+    · exact h0
     · split
-      · refine ⟨fun id => ?_, by simpa using idle⟩
-        have := once id
-        simp only [places, List.count_append] at this ⊢
-        simp only [Option.toList_none, List.count_nil]
-        omega
-      · refine ⟨fun id => ?_, by simpa using idle⟩
+      · exact flowInv_stopProducer s h0
+      · refine ⟨fun id => ?_, by simpa using idle, by simp⟩
         have := once id
         simp only [places, refreshIds_mergeMetadata, List.count_append] at this ⊢
         simp only [Option.toList_none, List.count_nil]
@@ -812,34 +833,36 @@ private theorem flowInv_step (s : Flow) (e : Ev) (h : FlowInv s) : FlowInv (Refr
   | fetchErrNoCc =>
     simp only [RefreshFlow.step]
     split
-    · exact ⟨once, idle⟩
-    · refine ⟨fun id => ?_, by simpa using idle⟩
+    · exact h0
+    · refine ⟨fun id => ?_, by simpa using idle, by simp⟩
       have := once id
       simp only [places, List.count_append] at this ⊢
       simp only [Option.toList_none, List.count_nil]
       omega
-  | fetchErrOnCc => exact ⟨once, idle⟩
+  | fetchErrOnCc => exact h0
   | merge op =>
     simp only [RefreshFlow.step]
     split
-    · exact ⟨once, idle⟩
-    · refine ⟨fun id => ?_, by simpa using idle⟩
-      have := once id
-      simp only [places, refreshIds_apply_strip] at this ⊢
-      exact this
+    · exact h0
+    · split
+      · exact flowInv_stopProducer s h0
+      · refine ⟨fun id => ?_, by simpa using idle, by simpa using nofetch⟩
+        have := once id
+        simp only [places, refreshIds_apply_strip] at this ⊢
+        exact this
   | consumerTake =>
     simp only [RefreshFlow.step]
     split
-    · exact ⟨once, idle⟩
+    · exact h0
     · rename_i hc
       split
-      · exact ⟨once, idle⟩
+      · exact h0
       · rename_i u hu
         have hb : s.busy = false := by
           cases hbb : s.busy with
           | false => rfl
           | true => simp [hbb] at hc
-        refine ⟨fun id => ?_, by simp⟩
+        refine ⟨fun id => ?_, by simp, by simpa using nofetch⟩
         have := once id
         simp only [places, hu, idle hb, List.count_nil] at this ⊢
         simp only [refreshIds, List.count_nil] at this ⊢
@@ -847,29 +870,29 @@ private theorem flowInv_step (s : Flow) (e : Ev) (h : FlowInv s) : FlowInv (Refr
   | consumerFinish =>
     simp only [RefreshFlow.step]
     split
-    · exact ⟨once, idle⟩
-    · refine ⟨fun id => ?_, by simp⟩
+    · exact h0
+    · refine ⟨fun id => ?_, by simp, by simpa using nofetch⟩
       have := once id
       simp only [places, List.count_append, List.count_nil] at this ⊢
       omega
   | consumerGone =>
     simp only [RefreshFlow.step]
     split
-    · exact ⟨once, idle⟩
-    · refine ⟨fun id => ?_, by simp⟩
-      have := once id
-      simp only [places, List.count_append, List.count_nil] at this ⊢
-      simp only [refreshIds_none, List.count_nil]
-      omega
+    · exact h0
+    · split
+      · refine ⟨fun id => ?_, by simp, by simpa using nofetch⟩
+        have := once id
+        simp only [places, List.count_append, List.count_nil, refreshIds_none] at this ⊢
+        omega
+      · refine ⟨fun id => ?_, by simp, by simpa using nofetch⟩
+        have := once id
+        simp only [places, List.count_append, List.count_nil] at this ⊢
+        omega
   | producerGone =>
     simp only [RefreshFlow.step]
     split
-    · exact ⟨once, idle⟩
-    · refine ⟨fun id => ?_, by simpa using idle⟩
-      have := once id
-      simp only [places, List.count_append] at this ⊢
-      simp only [Option.toList_none, List.count_nil]
-      omega
+    · exact h0
+    · exact flowInv_stopProducer s h0
 
 private theorem flowInv_run (evs : List Ev) : FlowInv (RefreshFlow.run RefreshFlow.init evs) := by
   have : ∀ (evs : List Ev) (s : Flow), FlowInv s → FlowInv (RefreshFlow.run s evs) := by
@@ -877,11 +900,12 @@ private theorem flowInv_run (evs : List Ev) : FlowInv (RefreshFlow.run RefreshFl
     induction evs with
     | nil => intro s h; exact h
     | cons e rest ih => intro s h; exact ih _ (flowInv_step s e h)
-  exact this evs RefreshFlow.init ⟨by intro id; simp [places, RefreshFlow.init, refreshIds], by simp [RefreshFlow.init]⟩
+  exact this evs RefreshFlow.init
+    ⟨by intro id; simp [places, RefreshFlow.init, refreshIds], by simp [RefreshFlow.init], by simp [RefreshFlow.init]⟩
 
-/-- For every interleaving of requests, producer steps (request pick-up, successful / failed fetches, other merges),
-consumer steps (take, finish) and worker shutdowns: every refresh request ever issued is in EXACTLY ONE place -
-waiting in the request channel, pending in the metadata worker, in the slot, held by the running
+/-- For every interleaving of requests, producer steps (request pick-up, periodic fetches, successful / failed
+fetches, other merges), consumer steps (take, finish) and worker shutdowns: every refresh request ever issued is in
+EXACTLY ONE place - waiting in the request channel, pending in the metadata worker, in the slot, held by the running
 `apply_metadata_update`, answered `Ok`, answered `Err`, or dropped - and no id that was never issued is anywhere.
 So no reply channel is duplicated or silently forgotten by a merge, a take or an answer. -/
 theorem refresh_request_in_exactly_one_place (evs : List Ev) (id : Nat) :
@@ -889,7 +913,38 @@ theorem refresh_request_in_exactly_one_place (evs : List Ev) (id : Nat) :
       if id < (RefreshFlow.run RefreshFlow.init evs).next then 1 else 0 :=
   (flowInv_run evs).once id
 
-private theorem alive_flags (evs : List Ev) (h : evs.all isAlive = true) (s : Flow)
+/-- `set_pending_request` overwrites whatever is pending (in a release build its `debug_assert` is gone); the control
+flow makes that harmless: in every reachable state in which a request can be received (no full fetch / attempt
+running) nothing is pending. This is the `full_fetch_in_flight` discipline of metadata/worker.rs:689-704 as an invariant. -/
+theorem pending_never_overwritten (evs : List Ev) :
+    (RefreshFlow.run RefreshFlow.init evs).fetching = false → (RefreshFlow.run RefreshFlow.init evs).pending = none :=
+  (flowInv_run evs).nofetch
+
+private theorem alive_step (s : Flow) (e : Ev) (he : isAlive e = true) (hi : FlowInv s)
+    (hs : s.consumerGone = false ∧ s.producerGone = false ∧ s.dropped = []) :
+    (RefreshFlow.step s e).consumerGone = false ∧ (RefreshFlow.step s e).producerGone = false ∧
+      (RefreshFlow.step s e).dropped = [] := by
+  obtain ⟨hc, hp, hd⟩ := hs
+  cases e with
+  | consumerGone => simp [isAlive] at he
+  | producerGone => simp [isAlive] at he
+  | request => simp [RefreshFlow.step, hc, hp, hd]
+  | recvRequest =>
+    simp only [RefreshFlow.step, hp]
+    split
+    · exact ⟨hc, hp, hd⟩
+    · rename_i hf
+      have hpn : s.pending = none := hi.nofetch (by simpa using hf)
+      split <;> simp [hc, hp, hd, hpn]
+  | periodicFetch => simp only [RefreshFlow.step, hp]; split <;> simp [hc, hp, hd]
+  | fetchOk m => simp only [RefreshFlow.step, hp, hc]; split <;> simp [hc, hp, hd]
+  | fetchErrNoCc => simp only [RefreshFlow.step, hp]; split <;> simp [hc, hp, hd]
+  | fetchErrOnCc => simp [RefreshFlow.step, hc, hp, hd]
+  | merge op => simp [RefreshFlow.step, hc, hp, hd]
+  | consumerTake => simp only [RefreshFlow.step, hc]; split <;> (try split) <;> simp [hc, hp, hd]
+  | consumerFinish => simp only [RefreshFlow.step, hc]; split <;> simp [hc, hp, hd]
+
+private theorem alive_flags (evs : List Ev) (h : evs.all isAlive = true) (s : Flow) (hi : FlowInv s)
     (hs : s.consumerGone = false ∧ s.producerGone = false ∧ s.dropped = []) :
     (RefreshFlow.run s evs).consumerGone = false ∧ (RefreshFlow.run s evs).producerGone = false ∧
       (RefreshFlow.run s evs).dropped = [] := by
@@ -897,86 +952,308 @@ private theorem alive_flags (evs : List Ev) (h : evs.all isAlive = true) (s : Fl
   | nil => exact hs
   | cons e rest ih =>
     simp only [List.all_cons, Bool.and_eq_true] at h
-    obtain ⟨hc, hp, hd⟩ := hs
-    apply ih h.2
-    cases e with
-    | consumerGone => simp [isAlive] at h
-    | producerGone => simp [isAlive] at h
-    | request => simp [RefreshFlow.step, hc, hp, hd]
-    | recvRequest => simp only [RefreshFlow.step, hp]; split <;> (try split) <;> simp [hc, hp, hd]
-    | fetchOk m => simp [RefreshFlow.step, hc, hp, hd]
-    | fetchErrNoCc => simp [RefreshFlow.step, hc, hp, hd]
-    | fetchErrOnCc => simp [RefreshFlow.step, hc, hp, hd]
-    | merge op => simp [RefreshFlow.step, hc, hp, hd]
-    | consumerTake => simp only [RefreshFlow.step, hc]; split <;> (try split) <;> simp [hc, hp, hd]
-    | consumerFinish => simp only [RefreshFlow.step, hc]; split <;> simp [hc, hp, hd]
+    exact ih h.2 _ (flowInv_step s e hi) (alive_step s e h.1 hi hs)
+
+private theorem flowInv_init : FlowInv RefreshFlow.init :=
+  ⟨by intro id; simp [places, RefreshFlow.init, refreshIds], by simp [RefreshFlow.init], by simp [RefreshFlow.init]⟩
 
 /-- While both workers live, no reply channel is ever dropped: every issued request is waiting, pending, in the
 slot, being applied, or answered (exactly one of these). The only ways to lose a reply are the two shutdown events. -/
 theorem refresh_never_dropped_while_workers_alive (evs : List Ev) (h : evs.all isAlive = true) :
     (RefreshFlow.run RefreshFlow.init evs).dropped = [] :=
-  (alive_flags evs h RefreshFlow.init ⟨rfl, rfl, rfl⟩).2.2
+  (alive_flags evs h RefreshFlow.init flowInv_init ⟨rfl, rfl, rfl⟩).2.2
 
 /-- Answers are final: a step only appends to the lists of answered requests. -/
 theorem refresh_answers_only_grow (s : Flow) (e : Ev) :
     s.answeredOk <+: (RefreshFlow.step s e).answeredOk ∧ s.answeredErr <+: (RefreshFlow.step s e).answeredErr := by
   cases e with
-  | request => simp [RefreshFlow.step]
+  | request => simp only [RefreshFlow.step]; split <;> simp
   | recvRequest => simp only [RefreshFlow.step]; split <;> (try split) <;> simp
-  | fetchOk m => simp only [RefreshFlow.step]; split <;> (try split) <;> simp
+  | periodicFetch => simp only [RefreshFlow.step]; split <;> simp
+  | fetchOk m => simp only [RefreshFlow.step, stopProducer]; split <;> (try split) <;> (try split) <;> simp
   | fetchErrNoCc => simp only [RefreshFlow.step]; split <;> simp
   | fetchErrOnCc => simp [RefreshFlow.step]
-  | merge op => simp only [RefreshFlow.step]; split <;> simp
+  | merge op => simp only [RefreshFlow.step, stopProducer]; split <;> (try split) <;> (try split) <;> simp
   | consumerTake => simp only [RefreshFlow.step]; split <;> (try split) <;> simp
   | consumerFinish => simp only [RefreshFlow.step]; split <;> simp
-  | consumerGone => simp only [RefreshFlow.step]; split <;> simp
-  | producerGone => simp only [RefreshFlow.step]; split <;> simp
+  | consumerGone => simp only [RefreshFlow.step]; split <;> (try split) <;> simp
+  | producerGone => simp only [RefreshFlow.step, stopProducer]; split <;> (try split) <;> simp
 
-/-- Progress, success path: with both workers alive and the consumer between updates, once the fetch started for the
-pending request succeeds and the consumer takes the slot and finishes applying it, the pending request AND every
-request already in the slot are answered `Ok` - in order, each once - and nothing is left behind. -/
-theorem refresh_answered_after_fetch_and_apply (evs : List Ev) (h : evs.all isAlive = true) (m : Meta) :
-    let s := RefreshFlow.run RefreshFlow.init evs
-    s.busy = false →
-      let s' := RefreshFlow.run s [.fetchOk m, .consumerTake, .consumerFinish]
-      s'.answeredOk = s.answeredOk ++ (refreshIds s.slot ++ s.pending.toList) ∧
-      s'.pending = none ∧ s'.slot = none ∧ s'.applying = [] ∧ s'.dropped = [] := by
-  intro s
-  have hal := alive_flags evs h RefreshFlow.init ⟨rfl, rfl, rfl⟩
-  have hinv : FlowInv s := flowInv_run evs
-  have hal' : s.consumerGone = false ∧ s.producerGone = false ∧ s.dropped = [] := hal
-  clear_value s
-  intro hb
-  obtain ⟨hc, hp, hd⟩ := hal'
-  have hfill : ∃ u, mergeMetadata s.slot m s.pending = some u := by
-    have := merge_fills_slot s.slot (.metadata m s.pending)
-    simp only [MetaUpdate.apply] at this
-    exact Option.isSome_iff_exists.mp this
-  obtain ⟨u, hu⟩ := hfill
-  have hids : refreshIds (some u) = refreshIds s.slot ++ s.pending.toList := by
-    rw [← hu]; exact refreshIds_mergeMetadata _ _ _
-  simp [RefreshFlow.run, RefreshFlow.step, hc, hp, hd, hb, hu, hids]
+/-! #### possibility of progress -/
 
-/-- Progress, failure path: a failed attempt to (re-)establish the control connection answers the pending request with
-the error at once; a failed fetch on a live control connection keeps it pending (it is retried). -/
-theorem refresh_failure_paths (s : Flow) (hp : s.producerGone = false) :
-    (RefreshFlow.step s .fetchErrNoCc).answeredErr = s.answeredErr ++ s.pending.toList ∧
-    (RefreshFlow.step s .fetchErrNoCc).pending = none ∧
-    (RefreshFlow.step s .fetchErrOnCc) = s := by
-  simp [RefreshFlow.step, hp]
+private def Clean (s : Flow) : Prop :=
+  s.consumerGone = false ∧ s.producerGone = false ∧ s.fetching = false ∧ s.pending = none ∧ s.slot = none ∧
+  s.applying = [] ∧ s.busy = false
 
--- non-vacuity: three requests; the first fetch fails without a control connection (request 0 gets the error), the next
--- two are merged into ONE update while the consumer is busy, and are both answered when it is applied.
+private def m0 : Meta := { peers := 0 }
+private def round : List Ev := [.recvRequest, .fetchOk m0, .consumerTake, .consumerFinish]
+private def flushEvs : List Ev := [.consumerFinish, .periodicFetch, .fetchOk m0, .consumerTake, .consumerFinish]
+
+private theorem fill (slot : Option Update) (p : Option Nat) : ∃ u, mergeMetadata slot m0 p = some u := by
+  have := merge_fills_slot slot (.metadata m0 p)
+  simp only [MetaUpdate.apply] at this
+  exact Option.isSome_iff_exists.mp this
+
+private theorem flush (s : Flow) (hc : s.consumerGone = false) (hp : s.producerGone = false) :
+    Clean (RefreshFlow.run s flushEvs) ∧ (RefreshFlow.run s flushEvs).waiting = s.waiting := by
+  obtain ⟨u, hu⟩ := fill s.slot s.pending
+  cases hb : s.busy <;> cases hf : s.fetching <;>
+    simp [Clean, flushEvs, RefreshFlow.run, RefreshFlow.step, hc, hp, hb, hf, hu]
+
+private theorem one_round (s : Flow) (h : Clean s) (r : Nat) (rest : List Nat) (hw : s.waiting = r :: rest) :
+    Clean (RefreshFlow.run s round) ∧ (RefreshFlow.run s round).waiting = rest := by
+  obtain ⟨hc, hp, hf, hpe, hs, ha, hb⟩ := h
+  obtain ⟨u, hu⟩ := fill none (some r)
+  simp [Clean, round, RefreshFlow.run, RefreshFlow.step, hc, hp, hf, hpe, hs, hb, hw, hu]
+
+private theorem frun_append (s : Flow) (a b : List Ev) :
+    RefreshFlow.run s (a ++ b) = RefreshFlow.run (RefreshFlow.run s a) b := by
+  simp [RefreshFlow.run, List.foldl_append]
+
+private theorem next_unchanged : ∀ (evs' : List Ev) (s : Flow), (∀ e ∈ evs', e ≠ Ev.request) →
+    (RefreshFlow.run s evs').next = s.next := by
+  intro evs'
+  induction evs' with
+  | nil => intro s _; rfl
+  | cons e r ih =>
+    intro s hne
+    have hr := ih (RefreshFlow.step s e) (fun e' he' => hne e' (List.mem_cons_of_mem _ he'))
+    show (RefreshFlow.run (RefreshFlow.step s e) r).next = s.next
+    rw [hr]
+    cases e with
+    | request => exact absurd rfl (hne _ (List.mem_cons_self))
+    | recvRequest => simp only [RefreshFlow.step]; split <;> (try split) <;> rfl
+    | periodicFetch => simp only [RefreshFlow.step]; split <;> rfl
+    | fetchOk m => simp only [RefreshFlow.step, stopProducer]; split <;> (try split) <;> (try split) <;> rfl
+    | fetchErrNoCc => simp only [RefreshFlow.step]; split <;> rfl
+    | fetchErrOnCc => rfl
+    | merge op => simp only [RefreshFlow.step, stopProducer]; split <;> (try split) <;> (try split) <;> rfl
+    | consumerTake => simp only [RefreshFlow.step]; split <;> (try split) <;> rfl
+    | consumerFinish => simp only [RefreshFlow.step]; split <;> rfl
+    | consumerGone => simp only [RefreshFlow.step]; split <;> (try split) <;> rfl
+    | producerGone => simp only [RefreshFlow.step, stopProducer]; split <;> (try split) <;> rfl
+
+private theorem drain : ∀ (n : Nat) (s : Flow), Clean s → s.waiting.length = n →
+    ∃ evs, evs.all isAlive = true ∧ (∀ e ∈ evs, e ≠ Ev.request) ∧ Clean (RefreshFlow.run s evs) ∧
+      (RefreshFlow.run s evs).waiting = [] := by
+  intro n
+  induction n with
+  | zero =>
+    intro s h hl
+    exact ⟨[], rfl, by simp, h, List.length_eq_zero_iff.mp hl⟩
+  | succ n ih =>
+    intro s h hl
+    match hw : s.waiting with
+    | [] => simp [hw] at hl
+    | r :: rest =>
+      obtain ⟨hcl, hwr⟩ := one_round s h r rest hw
+      have hl' : (RefreshFlow.run s round).waiting.length = n := by rw [hwr]; simp [hw] at hl; exact hl
+      obtain ⟨evs, ha, hnr, hc2, hw2⟩ := ih _ hcl hl'
+      refine ⟨round ++ evs, ?_, ?_, ?_, ?_⟩
+      · simp [round, isAlive, ha]
+      · intro e he
+        rcases List.mem_append.mp he with he | he
+        · simp [round] at he; rcases he with rfl | rfl | rfl | rfl <;> simp
+        · exact hnr e he
+      · rw [frun_append]; exact hc2
+      · rw [frun_append]; exact hw2
+
+/-- POSSIBILITY of progress ("eventually" as reachability, not as a fairness-based liveness proof): from every
+reachable state in which both workers are alive there is a schedule of further events - none of them a shutdown, none
+a new request - after which every request ever issued has been answered (`Ok` or `Err`), each exactly once, and none
+was dropped. No reachable alive state is a dead end for a pending refresh. -/
+theorem can_quiesce (evs : List Ev) (h : evs.all isAlive = true) :
+    ∃ more, more.all isAlive = true ∧
+      let s := RefreshFlow.run RefreshFlow.init (evs ++ more)
+      Quiet s ∧ s.dropped = [] ∧ s.next = (RefreshFlow.run RefreshFlow.init evs).next ∧
+      ∀ id, id < s.next → s.answeredOk.count id + s.answeredErr.count id = 1 := by
+  have hal := alive_flags evs h RefreshFlow.init flowInv_init ⟨rfl, rfl, rfl⟩
+  obtain ⟨hcl, hwk⟩ := flush (RefreshFlow.run RefreshFlow.init evs) hal.1 hal.2.1
+  obtain ⟨rest, ha, hnr, h1, h2⟩ := drain _ _ hcl rfl
+  refine ⟨flushEvs ++ rest, by simp [flushEvs, isAlive, ha], ?_⟩
+  have hall : (evs ++ (flushEvs ++ rest)).all isAlive = true := by simp [h, flushEvs, isAlive, ha]
+  have hfin : RefreshFlow.run RefreshFlow.init (evs ++ (flushEvs ++ rest)) =
+      RefreshFlow.run (RefreshFlow.run (RefreshFlow.run RefreshFlow.init evs) flushEvs) rest := by
+    rw [frun_append, frun_append]
+  have hdrop := refresh_never_dropped_while_workers_alive _ hall
+  have honce := fun id => refresh_request_in_exactly_one_place (evs ++ (flushEvs ++ rest)) id
+  simp only []
+  rw [hfin] at hdrop honce ⊢
+  obtain ⟨_, _, _, hpe, hs, hap, _⟩ := h1
+  refine ⟨⟨h2, hpe, by rw [hs]; rfl, hap⟩, hdrop, ?_, ?_⟩
+  · -- no request among the added events: `next` is unchanged
+    rw [next_unchanged rest _ hnr]
+    apply next_unchanged
+    intro e he
+    simp [flushEvs] at he
+    rcases he with rfl | rfl | rfl | rfl | rfl <;> simp
+  · intro id hid
+    have := honce id
+    simp only [places, h2, hpe, hs, hap, hdrop, refreshIds_none, Option.toList_none, List.count_nil, hid, if_true] at this
+    omega
+
+-- EVALUATIONS (not theorems): three requests; the first attempt fails without a control connection (request 0 gets the
+-- error), the next two are merged into ONE update while the consumer is busy, and are both answered when it is applied.
 example :
     let s := RefreshFlow.run RefreshFlow.init
       [.request, .request, .request, .recvRequest, .fetchErrNoCc, .recvRequest, .fetchOk { peers := 1 }, .consumerTake,
        .recvRequest, .fetchOk { peers := 2 }, .merge (.topology 3), .consumerFinish, .consumerTake, .consumerFinish]
-    s.answeredErr = [0] ∧ s.answeredOk = [1, 2] ∧ s.dropped = [] ∧ s.waiting = [] ∧ s.pending = none := by decide
--- the shutdown paths are the only ones that drop a reply channel
+    s.answeredErr = [0] ∧ s.answeredOk = [1, 2] ∧ s.dropped = [] ∧ s.waiting = [] ∧ s.pending = none ∧
+      s.slot = none ∧ s.applying = [] := by decide
+-- a failed fetch on a live control connection keeps the request pending and the attempt running; no request is
+-- picked up meanwhile (the second one waits in the channel)
 example :
-    let s := RefreshFlow.run RefreshFlow.init [.request, .recvRequest, .fetchOk { peers := 1 }, .consumerGone]
-    s.dropped = [0] ∧ places s 0 = 1 := by decide
+    let s := RefreshFlow.run RefreshFlow.init [.request, .request, .recvRequest, .fetchErrOnCc, .recvRequest]
+    s.pending = some 0 ∧ s.waiting = [1] ∧ s.fetching = true ∧ s.dropped = [] := by decide
+-- shutdown paths: the consumer goes (the slot lives on in the shared Arc), the producer's next send fails and it
+-- stops - pending, queued and slot-held reply channels are all dropped; a later request dies at once
+example :
+    let s := RefreshFlow.run RefreshFlow.init
+      [.request, .request, .request, .recvRequest, .fetchOk { peers := 1 }, .consumerGone, .recvRequest,
+       .fetchOk { peers := 2 }, .request]
+    s.dropped = [1, 2, 0, 3] ∧ s.producerGone = true ∧ s.slot = none ∧ places s 0 = 1 ∧ places s 3 = 1 := by decide
 
 end Refresh
+
+/-! ### the consumer publishes what it received: slot → `apply_metadata_update` → published `ClusterState` -/
+section Consumer
+open ScyllaVerif.MetaUpdate ScyllaVerif.ClusterConsumer
+
+/-- Processing a received update publishes exactly the topology that update carries (full fetch or partial topology
+fetch, with or without client routes in it, with or without a client-routes subscriber), and publishes nothing iff it
+carries none. In particular handing the client routes to the subscriber does not disturb the peer list. -/
+theorem consume_publishes_update_topology (c : Consumer) (u : Update) :
+    (consume c u).published = (match peersTag (some u) with | some t => t | none => c.published) ∧
+    (consume c u).publications = c.publications + (match peersTag (some u) with | some _ => 1 | none => 0) := by
+  rcases u with ⟨_ | ⟨⟨pe, _ | r⟩, rs⟩ | ⟨_ | cr, _ | pp⟩, hints⟩ <;> cases hsub : c.hasSubscriber <;>
+    simp [consume, handleClientRoutes, peersTag, hsub]
+
+/-- ... answers EVERY reply channel the update holds, in order, and no other. -/
+theorem consume_answers_every_reply (c : Consumer) (u : Update) :
+    (consume c u).answered = c.answered ++ refreshIds (some u) := by
+  rcases u with ⟨_ | ⟨⟨pe, _ | r⟩, rs⟩ | ⟨_ | cr, _ | pp⟩, hints⟩ <;> cases hsub : c.hasSubscriber <;>
+    simp [consume, handleClientRoutes, refreshIds, hsub]
+
+/-- ... processes every status hint of the update (DOWN hints first, then UP hints), and no other. -/
+theorem consume_applies_every_hint (c : Consumer) (u : Update) :
+    (consume c u).hintsApplied =
+      c.hintsApplied ++ u.hints.filter (fun h => !h.2) ++ u.hints.filter (fun h => h.2) := by
+  rcases u with ⟨_ | ⟨⟨pe, _ | r⟩, rs⟩ | ⟨_ | cr, _ | pp⟩, hints⟩ <;> cases hsub : c.hasSubscriber <;>
+    simp [consume, handleClientRoutes, hsub]
+
+/-- ... and, with a subscriber, hands it the client-routes information of the update (the full snapshot to
+`replace_client_routes`, a partial update to `merge_client_routes_update`); without a subscriber nothing is delivered. -/
+theorem consume_delivers_routes (c : Consumer) (u : Update) :
+    (consume c u).delivered = c.delivered ++
+      (if c.hasSubscriber then
+        match u.changes with
+        | some (.full m _) => (match m.clientRoutes with | some r => [.replace r] | none => [])
+        | some (.part p) => (match p.clientRoutes with | some upd => [.mergeUpd upd] | none => [])
+        | none => []
+       else []) := by
+  rcases u with ⟨_ | ⟨⟨pe, _ | r⟩, rs⟩ | ⟨_ | cr, _ | pp⟩, hints⟩ <;> cases hsub : c.hasSubscriber <;>
+    simp [consume, handleClientRoutes, hsub]
+
+private theorem effective_step (s : Pipe) (e : PEv) :
+    effectiveTopology (pstep s e) =
+      match e with
+      | .merge op => (match op.topo with | some t => t | none => effectiveTopology s)
+      | .take => effectiveTopology s := by
+  cases e with
+  | merge op =>
+    simp only [pstep, effectiveTopology, peersTag_apply]
+    cases op.topo <;> simp
+  | take =>
+    simp only [pstep]
+    cases hs : s.slot with
+    | none => simp
+    | some u =>
+      have := (consume_publishes_update_topology s.cons u).1
+      have hn : peersTag (none : Option Update) = none := rfl
+      simp only [effectiveTopology, hs, hn, this]
+      cases peersTag (some u) <;> rfl
+
+/-- For every history of producer merges (topology partial / full, client routes, status hints) interleaved with
+consumer takes, starting from an empty slot and a published topology `t0`: the topology in effect - the slot's if an
+update with a topology is still waiting, else the PUBLISHED one - is that of the latest `merge_metadata` /
+`merge_topology_update` of the whole history (`t0` if there was none). No topology merged in is discarded by the
+consumer, whatever else was merged with it. -/
+theorem published_follows_latest_topology (sub : Bool) (t0 : Nat) (evs : List PEv) :
+    effectiveTopology (prun { cons := { hasSubscriber := sub, published := t0 } } evs) =
+      (match lastTopo (mergesOf evs) with | some t => t | none => t0) := by
+  have gen : ∀ (evs : List PEv) (s : Pipe),
+      effectiveTopology (prun s evs) =
+        (match lastTopo (mergesOf evs) with | some t => t | none => effectiveTopology s) := by
+    intro evs
+    induction evs with
+    | nil => intro s; simp [prun, mergesOf, lastTopo]
+    | cons e rest ih =>
+      intro s
+      show effectiveTopology (prun (pstep s e) rest) = _
+      rw [ih, effective_step]
+      cases e with
+      | merge op =>
+        simp only [mergesOf, lastTopo]
+        cases lastTopo (mergesOf rest) <;> cases op.topo <;> simp
+      | take => simp only [mergesOf]
+  rw [gen]
+  simp [effectiveTopology, peersTag]
+
+/-- Once the consumer has caught up (the slot is empty), the PUBLISHED topology is the latest merged one. -/
+theorem caught_up_consumer_published_latest (sub : Bool) (t0 : Nat) (evs : List PEv)
+    (h : (prun { cons := { hasSubscriber := sub, published := t0 } } evs).slot = none) :
+    (prun { cons := { hasSubscriber := sub, published := t0 } } evs).cons.published =
+      (match lastTopo (mergesOf evs) with | some t => t | none => t0) := by
+  have := published_follows_latest_topology sub t0 evs
+  simpa [effectiveTopology, h, peersTag] using this
+
+private theorem answered_step (s : Pipe) (e : PEv) :
+    (pstep s e).cons.answered ++ refreshIds (pstep s e).slot =
+      s.cons.answered ++ refreshIds s.slot ++ (match e with | .merge op => op.refresh | .take => []) := by
+  cases e with
+  | merge op => simp [pstep, merge_keeps_reply_channels, List.append_assoc]
+  | take =>
+    simp only [pstep]
+    cases hs : s.slot with
+    | none => simp [hs]
+    | some u =>
+      have hn : refreshIds (none : Option Update) = [] := rfl
+      simp [consume_answers_every_reply, hn]
+
+/-- For the same histories: the reply channels answered by the consumer followed by those still in the slot are
+exactly the reply channels the producer merged in, in order - each answered once or still waiting, none discarded. -/
+theorem replies_answered_or_in_slot (sub : Bool) (t0 : Nat) (evs : List PEv) :
+    let s := prun { cons := { hasSubscriber := sub, published := t0 } } evs
+    s.cons.answered ++ refreshIds s.slot = (mergesOf evs).flatMap Op.refresh := by
+  have gen : ∀ (evs : List PEv) (s : Pipe),
+      (prun s evs).cons.answered ++ refreshIds (prun s evs).slot =
+        s.cons.answered ++ refreshIds s.slot ++ (mergesOf evs).flatMap Op.refresh := by
+    intro evs
+    induction evs with
+    | nil => intro s; simp [prun, mergesOf]
+    | cons e rest ih =>
+      intro s
+      show (prun (pstep s e) rest).cons.answered ++ refreshIds (prun (pstep s e) rest).slot = _
+      rw [ih, answered_step]
+      cases e <;> simp [mergesOf, List.append_assoc]
+  simp only []
+  rw [gen]
+  simp [refreshIds]
+
+-- non-vacuity: the shape of the seeded consumer defect - a partial update carrying BOTH a topology and a client-routes
+-- snapshot, processed by a consumer WITH a subscriber: the topology (7) must be published, the routes delivered.
+example :
+    let s := prun { cons := { hasSubscriber := true, published := 1 } }
+      [.merge (.topology 7), .merge (.clientRoutes [((1, 1), some 9042)]), .merge (.hint 3 false), .take]
+    s.cons.published = 7 ∧ s.cons.publications = 1 ∧ s.cons.delivered = [.mergeUpd [((1, 1), some 9042)]] ∧
+      s.cons.hintsApplied = [(3, false)] ∧ s.slot = none := by decide
+example :
+    let s := prun { cons := { hasSubscriber := true, published := 1 } }
+      [.merge (.metadata { peers := 4, clientRoutes := some [((1, 1), 5)] } (some 0)), .merge (.topology 6),
+       .take, .merge (.clientRoutes [((1, 1), none)]), .take]
+    s.cons.published = 6 ∧ s.cons.answered = [0] ∧ s.cons.publications = 1 ∧
+      s.cons.delivered = [.replace [((1, 1), 5)], .mergeUpd [((1, 1), none)]] := by decide
+
+end Consumer
 
 end ScyllaVerif.Props.C19
